@@ -95,7 +95,8 @@ structure Thread where
 inductive FPhase
   | absent                        -- not created / dropped / consumed
   | fresh                         -- `lock_async()` future created, never polled
-  | started (hasNode : Bool)      -- `MutexFuture` exists; `node` null / non-null
+  | startedNoNode                 -- `MutexFuture` exists, `node` is null
+  | startedNode                   -- … `node` allocated
   | done                          -- returned `Ready`
   deriving DecidableEq, Repr
 
@@ -164,9 +165,9 @@ def pollHead (cfg : Cfg) (s : State) (t : Tid) : State :=
   else
     let f := curF th
     let s1 : State :=
-      if (s.fut f).phase = .started false then
+      if (s.fut f).phase = .startedNoNode then
         { s with wl := s.wl.putNode (.fut f) (Node.fresh true (myWaiter t th))
-                 fut := upd s.fut f { s.fut f with phase := .started true } }
+                 fut := upd s.fut f { s.fut f with phase := .startedNode } }
       else s
     withPc s1 t (.llSwap .queue)
 
@@ -179,7 +180,7 @@ def taSucc (s : State) (t : Tid) (k : TaK) : State :=
   | .tryLock => withPc s t (.ret .ok)
   | .asyncFirst => pollDone s t true
   | .pollTry =>   -- finish_node
-    if (s.fut (curF th)).phase = .started true then withPc s t (.llSwap .finish) else pollDone s t true
+    if (s.fut (curF th)).phase = .startedNode then withPc s t (.llSwap .finish) else pollDone s t true
 
 /-- `try_acquire` returned false -/
 def taFail (cfg : Cfg) (s : State) (t : Tid) (k : TaK) : State :=
@@ -191,7 +192,7 @@ def taFail (cfg : Cfg) (s : State) (t : Tid) (k : TaK) : State :=
   | .lockSpin => withPc s t .spinYield
   | .tryLock => withPc s t (.ret .none)
   | .asyncFirst =>   -- `MutexFuture { node: null, done: false }.await`
-    pollHead cfg { s with fut := upd s.fut (curF th) { s.fut (curF th) with phase := .started false }
+    pollHead cfg { s with fut := upd s.fut (curF th) { s.fut (curF th) with phase := .startedNoNode }
                           th := upd s.th t { th with i := 0 } } t
   | .pollTry => pollHead cfg (setTh s t { th with i := th.i + 1 }) t
 
@@ -219,7 +220,7 @@ def afterRel (s : State) (t : Tid) (a : After) : State :=
   match a with
   | .retOk => withPc s t (.ret .ok)
   | .retReady =>   -- `drop(Box::from_raw(node)); this.node = null; this.done = true`
-    pollDone { s with fut := upd s.fut (curF th) { s.fut (curF th) with phase := .started false } } t true
+    pollDone { s with fut := upd s.fut (curF th) { s.fut (curF th) with phase := .startedNoNode } } t true
   | .dropLoad => withPc s t .dLoad
   | .parkLoad => withPc s t .wLoad
   | .pending => pollDone s t false
@@ -257,7 +258,7 @@ def callStep (cfg : Cfg) (s : State) (t : Tid) (op : MOp) : State :=
         { s with fut := upd s.fut f { s.fut f with busy := true }
                  wakes := upd s.wakes f 0
                  th := upd s.th t { th with pc := .taLoad .asyncFirst, cur := some f, blockOn := false } }
-      | .started _ =>
+      | .startedNoNode | .startedNode =>
         pollHead cfg
           { s with fut := upd s.fut f { s.fut f with busy := true }
                    wakes := upd s.wakes f 0
@@ -267,7 +268,7 @@ def callStep (cfg : Cfg) (s : State) (t : Tid) (op : MOp) : State :=
     if (s.fut f).busy then withPc s t (.ret .invalid)
     else match (s.fut f).phase with
       | .absent => withPc s t (.ret .invalid)
-      | .started true =>
+      | .startedNode =>
         { s with fut := upd s.fut f { s.fut f with busy := true }
                  th := upd s.th t { th with pc := .llSwap .drop, cur := some f, blockOn := false } }
       | _ => withPc { s with fut := upd s.fut f { phase := .absent, busy := false } } t (.ret .ok)
